@@ -41,7 +41,7 @@ func (s *TieredCompactionStrategy) SelectCompaction() (*CompactionTask, error) {
 
 	// Check L0 first (special case due to potential overlaps)
 	if len(s.levels[0]) >= s.cfg.MaxMemTables {
-		return s.selectL0Compaction()
+		return s.protectTombstones(s.selectL0Compaction())
 	}
 
 	// Check size-based conditions for other levels
@@ -57,18 +57,54 @@ func (s *TieredCompactionStrategy) SelectCompaction() (*CompactionTask, error) {
 
 		// If next level is empty, promote a file
 		if nextLevelSize == 0 && len(s.levels[level]) > 0 {
-			return s.selectPromotionCompaction(level)
+			return s.protectTombstones(s.selectPromotionCompaction(level))
 		}
 
 		// Check size ratio
 		sizeRatio := float64(thisLevelSize) / float64(nextLevelSize)
 		if sizeRatio >= s.cfg.CompactionRatio {
-			return s.selectOverlappingCompaction(level)
+			return s.protectTombstones(s.selectOverlappingCompaction(level))
 		}
 	}
 
 	// No compaction needed
 	return nil, nil
+}
+
+// protectTombstones marks a task whose deletion markers must survive: some
+// file below the task's target level shares keys with its inputs, so an older
+// version of a deleted key may still be stored there.
+func (s *TieredCompactionStrategy) protectTombstones(task *CompactionTask, err error) (*CompactionTask, error) {
+	if task == nil || err != nil {
+		return task, err
+	}
+
+	// Key range covered by the inputs
+	inputRange := &SSTableInfo{}
+	for _, files := range task.InputFiles {
+		for _, file := range files {
+			if inputRange.FirstKey == nil || bytes.Compare(file.FirstKey, inputRange.FirstKey) < 0 {
+				inputRange.FirstKey = file.FirstKey
+			}
+			if inputRange.LastKey == nil || bytes.Compare(file.LastKey, inputRange.LastKey) > 0 {
+				inputRange.LastKey = file.LastKey
+			}
+		}
+	}
+
+	for level, files := range s.levels {
+		if level <= task.TargetLevel {
+			continue
+		}
+		for _, file := range files {
+			if file.Overlaps(inputRange) {
+				task.KeepTombstones = true
+				return task, nil
+			}
+		}
+	}
+
+	return task, nil
 }
 
 // selectL0Compaction selects files from L0 for compaction
